@@ -20,10 +20,14 @@ check('C01', TV,
       'every realisation of the attached uncertainty set, that each robust row, each piece of maxof/minof objectives '
       'and the epigraph bound hold: the adversary z is eliminated exactly (polytope vertices / ellipsoid support '
       'function) so that the query is QF_LRA / small QF_NRA; a second layer decides over z alone that the vector '
-      'returned by the real solve() is robustly feasible.',
+      'returned by the real solve() is robustly feasible. Uncertainty sets with exponential-cone atoms (KL divergence, '
+      'entropy, sums of exp/log) are decided by the cone-pairing relaxation: set and counterpart memberships are '
+      'weakened to the pairing inequality <K_exp, K_exp*> >= 0 and the bilinear system is refuted by '
+      'reformulation-linearisation (QF_LRA; QF_NRA fall-back).',
       'Trusted: oracle semantics (NumPy on exact polynomials), Lemma V and Lemma S (cross-validated by direct '
-      'bilinear queries in dimension <= 2), z3. Bounded model family (see evidence.bounds); KL/exp-cone sets and '
-      'general p-norm sets are outside; ball-intersect-polytope rows are stretch obligations (may be undecided).',
+      'bilinear queries in dimension <= 2), the pairing inequality of the exponential cone, z3. Bounded model family '
+      '(see evidence.bounds); general p-norm sets are outside; ball-intersect-polytope and exp-cone-set rows are '
+      'stretch obligations (may be undecided; a model of a relaxation is never reported without a reproduced real point).',
       'SMT translation validation (QF_LRA/QF_NRA inclusion queries, block-sliced) of the compiled robust counterpart',
       'DESIGN.md section 4 C01')
 
@@ -73,9 +77,12 @@ check('C08', TV,
       'whenever P is feasible and bounded; SOC: a primal/dual pair closing the gap exists. Every pair of the 10 '
       'per-variable bound patterns (free, >=0, <=0, finite lower/upper, both, fixed at 0, fixed non-zero, [0,u], [l,0]) '
       'is enumerated, plus seeded 3-variable members, SOC members with shared cone variables and ro members.',
-      'Trusted: z3 (Optimize for exact LRA optima). Exp-cone and LMI dual blocks are outside (conjugate of exp). SOC '
-      'weak-duality/gap obligations are stretch (may be undecided). ECOS is used only to establish that a SOC primal is '
-      'bounded (precondition), never as the oracle.',
+      'Exponential-cone dual blocks: weak duality for all feasible pairs by the cone-pairing relaxation (QF_NRA), zero gap '
+      'and dual solvability by witnesses (real ECOS solutions of both formulas checked against both exact programs).',
+      'Trusted: z3 (Optimize for exact LRA optima), pairing inequalities of the second-order and exponential cones. LMI dual '
+      'blocks are outside. SOC/exp weak-duality obligations with several cones are stretch (may be undecided). ECOS is used '
+      'to establish that a conic primal is bounded (precondition) and as a source of witnesses for existential claims, '
+      'never as the oracle of a universal claim.',
       'SMT weak-duality inclusion (QF_LRA/QF_NRA) + exact LRA optimisation of primal and dual formulas',
       'DESIGN.md section 4 C08')
 
@@ -180,9 +187,11 @@ check('C03', TV,
       'expectation sets on events) a polytope W whose vertices are enumerated exactly; z3 decides for ALL P-feasible points '
       'that no vertex distribution makes the expected objective exceed the epigraph variable or an E-constraint positive, '
       'and that plain constraints hold at every scenario and support vertex (QF_LRA with ite-max for piecewise integrands). '
-      'Layer B: for the real solve() point the weights are symbolic (no enumeration of W).',
-      'Trusted: Lemma J and Lemma V (stated), z3, oracle reading of the ambiguity set. Polyhedral supports / expectation / '
-      'probability sets only; KL/entropy sets and norm-2 sets are outside.',
+      'Layer B: for the real solve() point the weights are symbolic (no enumeration of W). Probability sets with KL-divergence '
+      'or entropy constraints: the weights stay symbolic, cone memberships are weakened to the pairing inequality and the '
+      'bilinear system (weights x compiled columns) is refuted by reformulation-linearisation (QF_LRA).',
+      'Trusted: Lemma J and Lemma V (stated), the pairing inequality of the exponential cone, z3, oracle reading of the '
+      'ambiguity set. Polyhedral supports and expectation sets only; norm-2 sets are outside.',
       'SMT translation validation (QF_LRA inclusion) of the compiled DRO reformulation against vertex distributions',
       'DESIGN.md section 4 C03')
 
